@@ -45,6 +45,35 @@ func genAbnormalCase(rt *rapid.T, noHook bool) *FmtCase {
 		ops = append(ops, &Op{K: "Panic", Args: []*Val{vc.genPanicPayload(rt, 0, false)}})
 		return &FmtCase{Route: c12Routes[rapid.IntRange(0, len(c12Routes)-1).Draw(rt, "route")], Segs: []Seg{{Dir: &Directive{Verb: B("v")}}},
 			Args: []*Val{{K: "safefmt", Ops: ops}}}
+	case 4, 5:
+		// a wrapper around a re-entrant program whose nested printer meets a
+		// contained or a propagating (nested) panic, or just prints
+		payload := vc.leafS(rt, "str", false, false)
+		if rapid.Bool().Draw(rt, "nestedpanic") {
+			payload = &Val{K: "stringer!", S: B("x"), Sub: []*Val{vc.leafS(rt, "str", false, false)}}
+		}
+		operand := &Val{K: "stringer!", S: B("x"), Sub: []*Val{payload}}
+		if rapid.IntRange(0, 2).Draw(rt, "nopanic") == 0 {
+			operand = vc.genVal(rt, 1, false)
+		}
+		nestedOp := &Op{K: "Print", Args: []*Val{vc.leafS(rt, "str", false, false), operand}}
+		if rapid.Bool().Draw(rt, "printf") {
+			nestedOp = &Op{K: "Printf", S: B("n=%v %v"), Args: nestedOp.Args}
+		}
+		ops := []*Op{{K: "SafeString", S: B("pre")}, nestedOp, {K: "UnsafeString", S: B("post")}}
+		prog := &Val{K: "safefmt", Ops: ops}
+		if rapid.Bool().Draw(rt, "viaFormatter") {
+			prog = &Val{K: "fmter", Ops: []*Op{{K: "Write", S: B("w")}, {K: "SP", Ops: ops}}}
+		}
+		x := prog
+		switch rapid.IntRange(0, 2).Draw(rt, "wrapk") {
+		case 0:
+			x = &Val{K: "safe", Sub: []*Val{prog}}
+		case 1:
+			x = &Val{K: "unsafe", Sub: []*Val{prog}}
+		}
+		return &FmtCase{Route: c12Routes[rapid.IntRange(0, len(c12Routes)-1).Draw(rt, "route")], Segs: []Seg{{Lit: B("<")}, {Dir: &Directive{Verb: B("v")}}, {Lit: B(">")}},
+			Args: []*Val{x}}
 	}
 	c := genFmtCase(rt, fc, vc, c12Routes, 30)
 	if !noHook && rapid.IntRange(0, 5).Draw(rt, "hook") == 0 {
